@@ -6,12 +6,14 @@ package dtls
 import (
 	"bytes"
 	"encoding/gob"
+	"hash"
 	"sync/atomic"
 
 	"github.com/pion/dtls/v3/internal/ciphersuite"
 	dtlserrors "github.com/pion/dtls/v3/internal/errors"
 	dtlsstate "github.com/pion/dtls/v3/internal/state"
 	dtlsutil "github.com/pion/dtls/v3/internal/util"
+	"github.com/pion/dtls/v3/pkg/crypto/keyschedule"
 	"github.com/pion/dtls/v3/pkg/crypto/prf"
 	"github.com/pion/dtls/v3/pkg/protocol"
 	"github.com/pion/dtls/v3/pkg/protocol/handshake"
@@ -23,6 +25,7 @@ type State struct {
 	localEpoch, remoteEpoch   uint16
 	localRandom, remoteRandom handshake.Random
 	masterSecret              []byte
+	exporterMasterSecret      []byte // DTLS 1.3 only
 	sequenceNumber            uint64
 	srtpProtectionProfile     SRTPProtectionProfile
 	peerSRTPMKI               []byte
@@ -129,6 +132,7 @@ func generateState13(internalState *dtlsstate.State13) (*State, error) {
 		remoteEpoch:           common.RemoteEpoch(),
 		localRandom:           common.LocalRandom,
 		remoteRandom:          common.RemoteRandom,
+		exporterMasterSecret:  bytes.Clone(internalState.KeySchedule.ExporterMasterSecret),
 		sequenceNumber:        sequenceNumber,
 		srtpProtectionProfile: common.SRTPProtectionProfile(),
 		localConnectionID:     bytes.Clone(common.LocalConnectionID()),
@@ -324,6 +328,9 @@ func (s *State) ExportKeyingMaterial(label string, context []byte, length int) (
 	if err != nil {
 		return nil, err
 	}
+	if s.version.Equal(protocol.Version1_3) {
+		return s.exportKeyingMaterial13(cipherSuite.HashFunc(), label, length)
+	}
 
 	localRandom := s.localRandom.MarshalFixed()
 	remoteRandom := s.remoteRandom.MarshalFixed()
@@ -336,6 +343,20 @@ func (s *State) ExportKeyingMaterial(label string, context []byte, length int) (
 	}
 
 	return prf.PHash(s.masterSecret, seed, length, cipherSuite.HashFunc())
+}
+
+// exportKeyingMaterial13 is the exporter of RFC 8446 Section 7.5, keyed by the
+// exporter master secret of the handshake (never by public values).
+func (s *State) exportKeyingMaterial13(hashFunc func() hash.Hash, label string, length int) ([]byte, error) {
+	if len(s.exporterMasterSecret) == 0 {
+		return nil, dtlserrors.ErrHandshakeInProgress
+	}
+	derived, err := keyschedule.DeriveSecret(hashFunc, s.exporterMasterSecret, label, hashFunc())
+	if err != nil {
+		return nil, err
+	}
+
+	return keyschedule.HkdfExpandLabel(hashFunc, derived, "exporter", hashFunc().Sum(nil), length)
 }
 
 // RemoteRandomBytes returns the remote client hello random bytes.
